@@ -11,14 +11,14 @@ from nbsym import engine as E
 ID = "C19"
 TITLE = "find-snvs allele depths == base calls of the reads passing the CONFIGURED read filters (--mapping-quality, keep-duplicate/qcfail/supplementary); alleles listed iff they meet the individual and population thresholds; >= 2 alleles; REF first / REFMASKED; ALT by decreasing mean sample frequency"
 TECHNIQUE = 'symbolic execution of bam_region_depths against a pysam.pileup contract stub (expected depth as a z3 term over all read variables); thresholds by solver-enumerated depths against an oracle; witnesses replayed on real BAM files'
-ENCODED = ["mchap.application.find_snvs.main", "mchap.application.find_snvs.bam_region_depths", "mchap.application.find_snvs.bases_to_indices", "mchap.application.find_snvs._count_alleles",
+ENCODED = ["mchap.application.find_snvs.main", "mchap.application.find_snvs.write_vcf_block (argument plumbing down to bam_region_depths)", "mchap.application.find_snvs.bam_region_depths", "mchap.application.find_snvs.bases_to_indices", "mchap.application.find_snvs._count_alleles",
            "mchap.application.find_snvs.write_vcf_block", "mchap.application.find_snvs._vcf_sort_alleles", "mchap.application.find_snvs._order_as_vcf_alleles",
            "mchap.application.find_snvs.format_samples_columns"]
 STUBS = ["pysam.AlignmentFile.pileup(**kwargs) -> contract stub: honours exactly the keyword names pysam documents (min_mapping_quality, flag_filter, flag_require, ignore_orphans, min_base_quality, stepper, truncate, ...) with pysam's defaults (stepper='samtools': flag_filter = UNMAP|SECONDARY|QCFAIL|DUP, min_base_quality 13, ignore_orphans) and silently ignores any other keyword, as pysam's IteratorColumn does",
          "pysam.FastaFile.fetch -> the reference string; numba.vectorize / guvectorize -> numpy.vectorize of the same Python kernels"]
 ASSUMES = ["depth obligation: reads are symbolic (flags, MAPQ, base); the expected depth is a z3 term over all read variables and the four filter options",
            "threshold obligations: write_vcf_block is numpy/pandas string code (C boundary): depths and thresholds are solver-enumerated over a finite grid and the emitted lines compared with an independent oracle"]
-BOUNDS = {"quick": "depths: 2 reads x 1 position x 1 sample, all flag/MAPQ/base combinations, 6 option settings (each keep flag toggled alone at least once); thresholds: 1 site x 2 samples x counts in {0,1,3} for A,C,G, 8 threshold settings, plus counts in {0,10,100} and {9,99,1000} for 2 settings (rendering width); FORMAT AD, INFO AD and ADMF text compared; command line: 96 settings (3 keep flags x 4 mapping qualities incl. 0 x thresholds left out / distinctive / all zero) on the repository's 3 test BAMs and 4-interval bed, arguments bound through write_vcf_block's own signature",
+BOUNDS = {"quick": "depths: 2 reads x 1 position x 1 sample, all flag/MAPQ/base combinations, 6 option settings (each keep flag toggled alone at least once); thresholds: 1 site x 2 samples x counts in {0,1,3} for A,C,G, 8 threshold settings, plus counts in {0,10,100} and {9,99,1000} for 2 settings (rendering width); FORMAT AD, INFO AD and ADMF text compared; command line: 96 settings (3 keep flags x 4 mapping qualities incl. 0 x thresholds left out / distinctive / all zero) on the repository's 3 test BAMs and 4-interval bed, arguments bound through write_vcf_block's and bam_region_depths' own signatures",
           "thorough": "depths: 3 reads; thresholds: 32 threshold settings, counts in {0,1,2,4}"}
 OUTSIDE = "htslib's pileup engine (overlap detection, base-quality and orphan handling are only modelled as documented defaults); depths above 1000"
 TASKS_PER_CHILD = 2
@@ -99,28 +99,54 @@ def _cli_drive(fs, choice):
             cmd.append("--keep-%s-reads" % k)
     want.update(skip_duplicates=not keep["duplicate"], skip_qcfail=not keep["qcfail"], skip_supplementary=not keep["supplementary"])
     store = fs.__dict__.setdefault("__c19_orig__", {})
-    for n in ("write_vcf_block", "write_vcf_header"):
+    for n in ("write_vcf_block", "write_vcf_header", "bam_region_depths"):
         store.setdefault(n, getattr(fs, n))
     sig = inspect.signature(store["write_vcf_block"])
-    calls = []
+    sig_d = inspect.signature(getattr(store["bam_region_depths"], "py_func", store["bam_region_depths"]))
+    calls, dcalls = [], []
 
     def rec(*a, **k):
         b = sig.bind(*a, **k)
         b.apply_defaults()
         calls.append(dict(b.arguments))
+        return store["write_vcf_block"](*a, **k)  # the real block writer, down to the pileup
 
-    fs.write_vcf_block, fs.write_vcf_header = rec, (lambda *a, **k: None)
+    def rec_depths(*a, **k):
+        b = sig_d.bind(*a, **k)
+        b.apply_defaults()
+        d = dict(b.arguments)
+        dcalls.append(d)
+        return rnp.zeros((int(d["stop"]) - int(d["start"]), len(d["bam_paths"]), 4), dtype=rnp.int64)
+
+    fs.write_vcf_block, fs.write_vcf_header, fs.bam_region_depths = rec, (lambda *a, **k: None), rec_depths
     try:
         with contextlib.redirect_stdout(io.StringIO()):
             fs.main(cmd)
     finally:
-        fs.write_vcf_block, fs.write_vcf_header = store["write_vcf_block"], store["write_vcf_header"]
+        fs.write_vcf_block, fs.write_vcf_header, fs.bam_region_depths = store["write_vcf_block"], store["write_vcf_header"], store["bam_region_depths"]
+    want["__depth_calls__"] = dcalls
     rows = [ln.split("\t")[:3] for ln in open(os.path.join(data, "simple.bed")).read().splitlines() if ln.strip()]
     return want, calls, rows, cmd
 
 
 def _cli_problems(want, calls, rows):
     bad = []
+    want = dict(want)
+    dcalls = want.pop("__depth_calls__", None)
+    if dcalls is not None:
+        # write_vcf_block -> bam_region_depths: the pileup of every interval is taken with the command line's read filters
+        if len(dcalls) != len(rows):
+            bad.append("%d pileups taken for %d target intervals" % (len(dcalls), len(rows)))
+        for d, row in zip(dcalls, rows):
+            if (str(d["contig"]), int(d["start"]), int(d["stop"])) != (row[0], int(row[1]), int(row[2])):
+                bad.append("pileup of interval %s taken over %s:%s-%s" % (row, d["contig"], d["start"], d["stop"]))
+            for k_d, k_w in (("min_quality", "mapping_quality"), ("skip_duplicates", "skip_duplicates"), ("skip_qcfail", "skip_qcfail"), ("skip_supplementary", "skip_supplementary")):
+                g, w_ = d[k_d], want[k_w]
+                same = (isinstance(g, (bool, rnp.bool_)) and bool(g) == w_) if isinstance(w_, bool) else (not isinstance(g, bool) and g == w_)
+                if not same:
+                    bad.append("bam_region_depths gets %s=%r, the command line says %s=%r" % (k_d, g, k_w, w_))
+            if d.get("kwargs"):
+                bad.append("bam_region_depths is handed keywords it does not define: %s" % sorted(d["kwargs"]))
     if len(calls) != len(rows):
         bad.append("%d blocks written for %d target intervals" % (len(calls), len(rows)))
     for call, row in zip(calls, rows):
